@@ -91,7 +91,7 @@ REQUIRED_BINS = [
     "reset_vbus_absent", "reset_fs_5us", "reset_suspended_2p5us", "reset_hs_3ms_200us",
     "se0_just_below_5us_no_reset", "se0_split_by_glitch", "se0_just_below_2p5us_suspended",
     "hs_via_chirp", "hs_via_resume", "train_state_just_below_2p5us", "train_state_split_by_glitch",
-    "train_two_pairs_then_junk", "handshake_timeout_fallback", "handshake_deadline_inside_chirp_state",
+    "train_two_pairs_then_junk", "handshake_timeout_fallback",
     "suspend_fs", "suspend_hs", "non_idle_3ms_no_suspend", "non_idle_3ms_no_suspend_ls",
     "restriction_at_hs", "restriction_in_hs_detect_window",
     "reset_while_restricted", "restriction_toggled_near_reset", "hs_window_j_at_decision",
